@@ -364,3 +364,158 @@ func harnessC12impostor() {
 	c.Kill()
 	vDone()
 }
+
+// ---------------------------------------------------------------------------------------------- C03: crash points
+// The plugin dies (SIGKILL-like: no deferred code runs) at a symbolic instant tDie anywhere in a host history whose
+// operations are spread over the symbolic clock. Every operation must return within its bound, without panic, with an
+// error when it needed a plugin that was already dead; afterwards the client reports the exit and the context handed
+// to gRPC plugin clients is cancelled.
+type wOpResult struct {
+	err      error
+	panicked bool
+	took     int64
+}
+
+func wTimed(f func() error) (r wOpResult) {
+	t0 := vNow()
+	r.panicked = true
+	func() {
+		defer func() { recover() }()
+		r.err = f()
+		r.panicked = false
+	}()
+	if r.err != nil {
+		vRecord("last-error", r.err.Error())
+	}
+	r.took = vNow() - t0
+	return
+}
+
+func harnessC03() {
+	var o wOpts
+	o.grpc = vChoice(2) == 1
+	if o.grpc {
+		o.mux = vChoice(2) == 1
+	}
+	o.allowed = 1
+	o.cmd = vChoice(2) == 1
+	o.delay = 3 * sec // a call on the dispensed implementation takes three seconds
+	w := wSetup(o)
+	c, p := w.c, w.p
+	tBoot := vNondetTime("tBoot") // the plugin needs this long before it prints its line
+	vAssume(tBoot <= 5*sec)
+	inner := p.main
+	p.main = func() { vSleepUntil(tBoot); inner() }
+	tDie := vNondetTime("tDie")
+	vAssume(tDie <= 100*sec)
+	go func() { vDaemon(); vSleepUntil(tDie); p.die() }()
+
+	// t = 0: Start
+	r := wTimed(func() error { _, err := c.Start(); return err })
+	vAssert(!r.panicked, "C03: Start does not panic whatever the crash point")
+	vAssert(r.took <= 61*sec, "C03: Start returns within the start timeout")
+	if r.err != nil {
+		vCover("start-failed")
+		vAssert(p.isDead, "C03: Start fails only if the plugin died around its handshake")
+		c.Kill()
+		vDone()
+	}
+	vCover("started")
+
+	// t = 10 s: Client
+	vSleepUntil(10 * sec)
+	var cp ClientProtocol
+	r = wTimed(func() error { var err error; cp, err = c.Client(); return err })
+	vAssert(!r.panicked && r.took <= 6*sec, "C03: Client() returns in bounded time without panic")
+	if r.err != nil {
+		vCover("client-failed")
+		vAssert(p.isDead, "C03: Client() fails only if the plugin is dead")
+		c.Kill()
+		vDone()
+	}
+
+	// t = 20 s: Dispense
+	vSleepUntil(20 * sec)
+	var raw interface{}
+	wasDead := p.isDead
+	r = wTimed(func() error { var err error; raw, err = cp.Dispense("test"); return err })
+	vAssert(!r.panicked && r.took <= 6*sec, "C03: Dispense returns in bounded time without panic")
+	if !o.grpc && wasDead {
+		vAssert(r.err != nil, "C03: a net/rpc Dispense on a dead plugin returns an error")
+	}
+	if r.err != nil {
+		vAssert(p.isDead, "C03: Dispense fails only if the plugin is dead")
+	}
+
+	// t = 30 s: a call that takes 3 s on the plugin side (the crash may fall inside it)
+	vSleepUntil(30 * sec)
+	if r.err == nil {
+		wasDead = p.isDead
+		r = wTimed(func() error { _, err := raw.(wStub).Whoami(); return err })
+		vAssert(!r.panicked && r.took <= 6*sec, "C03: a call on a dispensed client returns in bounded time without panic")
+		if wasDead || tDie < 33*sec {
+			vCover("crash-before-or-inside-call")
+			vAssert(r.err != nil, "C03: a call interrupted by the crash, or made after it, returns an error")
+		}
+		if r.err != nil {
+			vAssert(p.isDead, "C03: a call fails only if the plugin is dead")
+		}
+	}
+
+	// t = 40 s: broker accept and dial on IDs nobody else uses
+	vSleepUntil(40 * sec)
+	if o.grpc {
+		b := cp.(*GRPCClient).broker
+		r = wTimed(func() error { _, err := b.Accept(901); return err })
+		vAssert(!r.panicked && r.took <= 6*sec, "C03: a broker accept returns in bounded time without panic")
+		r = wTimed(func() error { // with multiplexing the dial is lazy: the first call is what needs the peer
+			cc, err := b.Dial(902)
+			if err != nil {
+				return err
+			}
+			ctx, cancel := context.WithTimeout(context.Background(), 20*time.Second)
+			defer cancel()
+			_, err = wWhoami(cc, ctx)
+			return err
+		})
+		vAssert(!r.panicked && r.took <= 11*sec, "C03: a broker dial (and first call) returns in bounded time without panic")
+		vAssert(r.err != nil, "C03: a broker dial nobody serves returns an error")
+	} else {
+		b := cp.(*RPCClient).broker
+		r = wTimed(func() error { _, err := b.Accept(901); return err })
+		vAssert(!r.panicked && r.took <= 6*sec, "C03: a broker accept returns in bounded time without panic")
+		vAssert(r.err != nil, "C03: a broker accept nobody dials returns an error")
+		r = wTimed(func() error { _, err := b.Dial(902); return err })
+		vAssert(!r.panicked && r.took <= 6*sec, "C03: a broker dial returns in bounded time without panic")
+		vAssert(r.err != nil, "C03: a broker dial nobody accepts returns an error")
+	}
+	vCover("broker-ops-returned")
+
+	// t = 60 s: Ping
+	vSleepUntil(60 * sec)
+	wasDead = p.isDead
+	r = wTimed(func() error { return cp.Ping() })
+	vAssert(!r.panicked && r.took <= 6*sec, "C03: Ping returns in bounded time without panic")
+	if wasDead {
+		vAssert(r.err != nil, "C03: Ping on a dead plugin returns an error")
+	}
+	if r.err != nil {
+		vAssert(p.isDead, "C03: Ping fails only if the plugin is dead")
+	}
+
+	// t = 70 s: exit bookkeeping
+	vSleepUntil(70 * sec)
+	if wasDead {
+		vCover("exit-observed")
+		vAssert(c.Exited(), "C03: the client reports the plugin as exited")
+		vAssert(c.doneCtx.Err() != nil, "C03: the context handed to gRPC plugin clients is cancelled")
+	}
+
+	// t = 80 s: Kill
+	vSleepUntil(80 * sec)
+	r = wTimed(func() error { c.Kill(); return nil })
+	vAssert(!r.panicked && r.took <= 6*sec, "C03: Kill returns in bounded time without panic")
+	vAssert(p.isDead && c.Exited(), "C04: after Kill the plugin has exited and the client reports it")
+	vCover("killed")
+	vDone()
+}
